@@ -94,6 +94,19 @@ def run_world(aiu, w, prefix=(), expect=None, budget=30000):
             if not sched.aborted:
                 sched.log('inv_cancelled', inv, key)
             raise
+    if any(b == 'raise_sync' for b in script):
+        # the wrapped callable is a plain function returning an awaitable; it may fail when CALLED
+        async_raw = raw
+
+        def raw(key):      # noqa: F811
+            inv = ninv[0]
+            if inv < len(script) and script[inv] == 'raise_sync':
+                ninv[0] += 1
+                task = asyncio.current_task()
+                sched.log('inv_begin', inv, key, asyncio.get_running_loop().vname, id(task))
+                sched.log('inv_raise', inv, key)
+                raise HarnessError(inv, id(task))
+            return async_raw(key)
     f = aiu.threadsafe_async_cache(raw, **cachekw)
 
     # observe cross-loop proxy waits (who waits inside which loop), whatever name the library uses
@@ -161,6 +174,20 @@ def run_world(aiu, w, prefix=(), expect=None, budget=30000):
                         except asyncio.TimeoutError:
                             pass
                     await asyncio.gather(*(guarded(c) for c in callers()), return_exceptions=True)
+                asyncio.run(main(), loop_factory=factory)
+            elif life == 'L2x':     # first caller under wait_for (it gets cancelled), the others wait freely
+                async def main():
+                    cs = callers()
+                    t0 = asyncio.ensure_future(cs[0])        # created first: it becomes the computing caller
+                    sched.keep.append(t0)
+                    sched.log('own_timeout_scope', id(t0))
+
+                    async def guarded():
+                        try:
+                            await asyncio.wait_for(t0, spec.get('tmo', D / 2))
+                        except asyncio.TimeoutError:
+                            pass
+                    await asyncio.gather(guarded(), *cs[1:], return_exceptions=True)
                 asyncio.run(main(), loop_factory=factory)
             elif life == 'L3':      # hand-driven loop, then abandoned with the computation pending
                 loop = factory()
@@ -393,6 +420,11 @@ class Monitor:
         if aborted in ('deadlock', 'budget', 'horizon'):
             blame = [cid for cid in pending if callers[cid]['loop'] not in dead_loops]
             if blame or aborted != 'deadlock':
+                self.viol['C06'].append(('caller_left_hanging',
+                                         f'execution ended by {aborted} at t={tend}: callers {blame or pending} on live '
+                                         f'loops never finish although no invocation of their key is in progress '
+                                         f'({ {i: d["loop"] for i, d in open_inv.items()} }): an earlier failure / '
+                                         f'cancellation was not cleaned up'))
                 self.viol['C05'].append((f'callers_never_finish_{aborted}',
                                          f'execution ended by {aborted} at t={tend} with callers {pending} pending '
                                          f'(on live loops: {blame}); invocations still open: '
@@ -509,6 +541,15 @@ def worlds(tier, prop):
                 [dict(life=la, m=1, offset=0.0, **kw), dict(life='L0', m=1, offset=0.0),
                  dict(life='L0', m=1, offset=offc)],
                 ['sleepD', 'sleepD', 'sleepD', 'ret0'], pb=1 if q else 2)
+    # the computing caller is cancelled by its own timeout while its loop stays alive for a second caller
+    for offb in (0.0, D / 2, D):
+        add(f'2t/L2x/offb{offb}', [dict(life='L2x', m=2, offset=0.0, tmo=D / 2), dict(life='L0', m=1, offset=offb)],
+            ['sleepD', 'sleepD', 'ret0'], pb=1)
+    # the wrapped callable fails synchronously, when called
+    for la, kw in (('L0', {}), ('L1', {'delta': D / 2})):
+        for offb in (0.0, D / 2):
+            add(f'2t/{la}/raise_sync/offb{offb}', [dict(life=la, m=2, offset=0.0, **kw), dict(life='L0', m=1, offset=offb)],
+                ['raise_sync', 'sleepD', 'ret0'], pb=1)
     if prop in ('C05', 'C06'):      # C01 stipulates that stopped loops are not restarted
         for m in (1, 2):
             for offb in (D, D / 2):
